@@ -1,5 +1,6 @@
 mod c04;
 mod c04gen;
+mod arity;
 mod astdump;
 mod c01;
 mod c08;
